@@ -36,8 +36,8 @@ type C20 struct {
 	Rounds bool `json:"rounds,omitempty"`
 	// Windows: the producer's chunks are windows of two buffers of its own, handed out in turn
 	Windows bool `json:"windows,omitempty"`
-	Reps int    `json:"reps,omitempty"` // mode R: repetitions of the op lists
-	Long int    `json:"long,omitempty"` // one long seeded sequential history of this many operations
+	Reps    int  `json:"reps,omitempty"` // mode R: repetitions of the op lists
+	Long    int  `json:"long,omitempty"` // one long seeded sequential history of this many operations
 }
 
 func genC20(seed uint64, run int, tier string) Scenario {
